@@ -81,6 +81,7 @@ extern "C" fn on_signal(sig: libc::c_int) {
 
 thread_local! {
     static PANIC_MSG: std::cell::RefCell<String> = const { std::cell::RefCell::new(String::new()) };
+    static GUARD_DEPTH: std::cell::Cell<u32> = const { std::cell::Cell::new(0) };
 }
 
 pub fn install_handlers() {
@@ -101,6 +102,11 @@ pub fn install_handlers() {
         // Non-unwinding panics (UB checks) abort right after the hook: leave a trace.
         if msg.contains("unsafe precondition") || msg.contains("cannot unwind") {
             let s = format!("\n@@NOUNWIND {} at {}\n", msg.replace('\n', " "), loc);
+            write_all_fd2(s.as_bytes());
+        }
+        if GUARD_DEPTH.with(|d| d.get()) == 0 && std::thread::current().name() == Some("main") {
+            // a panic of the harness itself, outside any guarded subject call
+            let s = format!("\n@@HARNESS-PANIC {} at {}\n", msg.replace('\n', " "), loc);
             write_all_fd2(s.as_bytes());
         }
         PANIC_MSG.with(|m| {
@@ -154,7 +160,10 @@ impl<T> Outcome<T> {
 
 /// Runs `f`, capturing an unwinding panic and its message.
 pub fn guard<T>(f: impl FnOnce() -> T) -> Outcome<T> {
-    match catch_unwind(AssertUnwindSafe(f)) {
+    GUARD_DEPTH.with(|d| d.set(d.get() + 1));
+    let r = catch_unwind(AssertUnwindSafe(f));
+    GUARD_DEPTH.with(|d| d.set(d.get() - 1));
+    match r {
         Ok(t) => Outcome::Ret(t),
         Err(_) => Outcome::Panic(PANIC_MSG.with(|m| m.borrow().clone())),
     }
@@ -360,7 +369,7 @@ impl Ctx {
     }
 
     pub fn cur_idx(&self) -> u64 {
-        self.next_idx - 1
+        self.next_idx.saturating_sub(1)
     }
 
     pub fn count(&mut self, k: &str) {
